@@ -365,8 +365,11 @@ Fixpoint rewrite_go (fuel nsub : nat) (s : string) : string :=
     end
   end.
 
+Definition rewrite_refs_at (m : nat) (dst : string) : string :=
+  rewrite_go (S (String.length dst)) m dst.
+(* rewriteGroupRefs raises the bound to 9: a single digit is always a reference *)
 Definition rewrite_refs (nsub : nat) (dst : string) : string :=
-  rewrite_go (S (String.length dst)) nsub dst.
+  rewrite_refs_at (Nat.max nsub 9) dst.
 
 Definition query_test (q : query) : node -> bool :=
   match q with
